@@ -7,6 +7,8 @@ CONSTANTS
   StaleTimeout = FALSE
   StaleLists = TRUE
   ThresholdBefore = FALSE
+  ProbeCheckUpdated = TRUE
+  QuotaErrors = FALSE
   InitStates = {"Queued"}
   B <- BNone
   MaxHist = 0
